@@ -355,6 +355,22 @@ type constStream struct {
 	n int
 }
 
+// failStream delivers `after` bytes and then fails (entropy source of a Sign call that must abort).
+type failStream struct{ after, n int }
+
+func (f *failStream) Read(p []byte) (int, error) {
+	k := 0
+	for k < len(p) && f.n < f.after {
+		p[k] = byte(f.n*29 + 5)
+		k++
+		f.n++
+	}
+	if k < len(p) {
+		return k, fmt.Errorf("entropy source failed after %d bytes", f.after)
+	}
+	return k, nil
+}
+
 func (c *constStream) Read(p []byte) (int, error) {
 	for i := range p {
 		c.n++
@@ -1120,6 +1136,19 @@ func run(c *mc.Ctx) {
 						w.Fail("PrivateKey.Sign/with-preset", fmt.Sprintf("Sign(SelfVerify=%v, AddedRandomness=%v, Verify=%s, variant %s) gives sig=%x err=%v panic=%v, RFC 8032 signature %x", so.SelfVerify, so.AddedRandomness, P.name, va.name, sig, err, pan, want), nil)
 					}
 					round(fmt.Sprintf("after Sign(SelfVerify=%v, AddedRandomness=%v) with %s", so.SelfVerify, so.AddedRandomness, P.name))
+				}
+				// a Sign call that ABORTS (its entropy source fails after 0 / 7 / 31 bytes) must leave nothing behind that the next
+				// verification could pick up (pooled hash state, scratch): same queries, same answers, straight afterwards
+				for _, after := range []int{0, 7, 31} {
+					so := &ed.Options{Hash: va.hash, Context: string(va.v.Context), SelfVerify: after == 7, AddedRandomness: true, Verify: P.vo}
+					var sig []byte
+					var err error
+					_, pan := call(func() bool { sig, err = priv0.Sign(&failStream{after: after}, m, so); return true })
+					w.Eval("options-history/failed-sign", true)
+					if pan || err == nil || sig != nil {
+						w.Fail("PrivateKey.Sign/reader-failure", fmt.Sprintf("Sign(AddedRandomness, variant %s) with an entropy source failing after %d bytes gives sig=%x err=%v panic=%v", va.name, after, sig, err, pan), nil)
+					}
+					round(fmt.Sprintf("after a Sign aborted by its entropy source (%d bytes delivered) with %s", after, P.name))
 				}
 				bv := ed.NewBatchVerifier()
 				var want2 []bool
